@@ -1,4 +1,5 @@
 import Falcon.Lemmas.BabaiAlg
+import Falcon.Lemmas.Karatsuba
 import Falcon.Model.Zp
 import Falcon.Lemmas.ZpZMod
 import Falcon.Lemmas.ZpProduct
@@ -30,6 +31,26 @@ theorem reduction_preserves_ntru {R : Type} [CommRing R] (n : Nat) (hn : 0 < n) 
     (hF : cF.length = n) (hG : cG.length = n) :
     ev (ntruLhs n f g (babaiRun n f g ks (cF, cG)).1 (babaiRun n f g ks (cF, cG)).2) ρ = ev (ntruLhs n f g cF cG) ρ :=
   babaiRun_invariant n hn ρ hρ f g hf hg ks cF cG hF hG
+
+/-- … as coefficient lists: the reduction leaves f⋆G − g⋆F in ℤ[X]/(Xⁿ+1) unchanged coefficient for coefficient
+    (integer lists of length n are determined by their values at the roots of Xⁿ+1, `RingZ.ev_ext`) -/
+theorem reduction_preserves_ntru_exact (n : Nat) (hn : 0 < n)
+    (f g : List Int) (hf : f.length = n) (hg : g.length = n) (ks : List (List Int)) (cF cG : List Int)
+    (hF : cF.length = n) (hG : cG.length = n) :
+    ntruLhs n f g (babaiRun n f g ks (cF, cG)).1 (babaiRun n f g ks (cF, cG)).2 = ntruLhs n f g cF cG := by
+  have hl : ∀ a b : List Int, a.length = n → b.length = n → (ntruLhs n f g a b).length = n := by
+    intro a b ha hb
+    unfold ntruLhs
+    rw [subL_length _ _ (by rw [negacyc_length n hn f b hb, negacyc_length n hn g a ha]), negacyc_length n hn f b hb]
+  obtain ⟨l1, l2⟩ := babaiRun_lengths n hn f g hf hg ks cF cG hF hG
+  apply ev_ext n hn _ _ (hl _ _ l1 l2) (hl _ _ hF hG)
+  intro R _ ρ hρ
+  exact babaiRun_invariant n hn ρ hρ f g hf hg ks cF cG hF hG
+
+/-- the step as math.rs computes it (`k.karatsuba(f).reduce_by_cyclotomic(n)`) is the modelled step, for n = 2^j -/
+theorem babai_step_as_coded (j : Nat) (f g q : List Int) (FG : List Int × List Int) (hf : f.length = 2 ^ j)
+    (hg : g.length = 2 ^ j) (hq : q.length = 2 ^ j) :
+    babaiStepImpl (2 ^ j) f g FG q = babaiStep (2 ^ j) f g FG q := babaiStepImpl_eq j f g q FG hf hg hq
 
 /-- the loop with the quotient as a (deterministic) function of the current pair -/
 def reduceWith (n : Nat) (f g : List Int) (kOf : List Int × List Int → List Int) :
